@@ -14,7 +14,7 @@ from ..callgraph import CallGraph
 from ..prov import Prov, coarse
 from ..pathwalk import show, is_const, C
 from ..hwalk import function_paths, all_values
-from ..symeval import SymEval, Undecided, Lin, STRUCT_STANDARD, breakpoints
+from ..symeval import SymEval, Undecided, LookupFailed, Lin, STRUCT_STANDARD, breakpoints
 from .. import oracle, docs, codecchain as CC
 from ..immsites import find_all, contains, ctor_fields
 
@@ -42,15 +42,16 @@ class Model:
                 out.append(name)
         return out
 
-    def paths(self, fn):
+    def paths(self, fn, self_class=None):
         if id(fn) not in self._paths:
-            self._paths[id(fn)] = function_paths(self.facts, fn)[1]
+            self._paths[id(fn)] = function_paths(self.facts, fn, self_class=self_class)[1]
         return self._paths[id(fn)]
 
     def method(self, cls, name):
         owner, m = self.facts.method(cls, name)
         if m is None:
             raise AnalysisError('anchor vanished: {}.{}'.format(cls, name))
+        self.paths(m, self_class=cls)       # walked with `self` known to be a cls (so that self.helper() is followed)
         return m
 
     def returns(self, fn):
@@ -129,22 +130,24 @@ def key_attribute(model, cls):
     """The attribute by which `cls.size()` selects the width (the directive keyword), and the attribute whose length multiplies it."""
     m = model.method(cls, 'size')
     keys, lens = set(), set()
+    self_attr = lambda t: t[0] == 'attr' and t[1] == SELF
     for p, v, node in model.returns(m):
-        for t in find_all(v, lambda t: t[0] == 'sub' and t[2][0] == 'attr' and t[2][1] == SELF):
-            keys.add(t[2][2])
-        for t in find_all(v, lambda t: t[0] == 'mcall' and t[2] == 'get' and t[3] and t[3][0][0] == 'attr' and t[3][0][1] == SELF):
-            keys.add(t[3][0][2])
-        for t in find_all(v, lambda t: t[0] == 'call' and t[1] == 'len' and len(t[2]) == 1 and t[2][0][0] == 'attr' and t[2][0][1] == SELF):
+        for t in find_all(v, lambda t: t[0] == 'sub'):
+            keys.update(a[2] for a in find_all(t[2], self_attr))
+        for t in find_all(v, lambda t: t[0] == 'mcall' and t[2] == 'get' and t[3]):
+            keys.update(a[2] for a in find_all(t[3][0], self_attr))
+        for t in find_all(v, lambda t: t[0] == 'call' and t[1] == 'len' and len(t[2]) == 1 and self_attr(t[2][0])):
             lens.add(t[2][0][2])
         for test, pol, _ in p.conds:
-            for t in find_all(test, lambda t: t[0] == 'cmp' and t[2][0] == 'attr' and t[2][1] == SELF and is_const(t[3])):
-                keys.add(t[2][2])
+            for t in find_all(test, lambda t: t[0] == 'cmp' and is_const(t[3])):
+                keys.update(a[2] for a in find_all(t[2], self_attr))
+    keys -= lens
     if len(keys) != 1 or len(lens) > 1:
         raise AnalysisError('{}.size(): cannot tell which attribute selects the width (candidates {})'.format(cls, sorted(keys)))
     return next(iter(keys)), (next(iter(lens)) if lens else None)
 
 
-def size_of(model, cls, key_attr, len_attr, kw, domains):
+def size_of(model, cls, key_attr, len_attr, kw):
     """Width in bytes that cls.size() accounts for one value of keyword kw (Lin in the number of values for sequences)."""
     m = model.method(cls, 'size')
     results = set()
@@ -152,18 +155,15 @@ def size_of(model, cls, key_attr, len_attr, kw, domains):
         bind = {('attr', SELF, key_attr): kw}
         if len_attr is not None:
             bind[('call', 'len', (('attr', SELF, len_attr),), ())] = Lin(1, 0)
-        ev = SymEval(model.facts, bind)
+        ev = SymEval(model.facts, bind, {SELF: cls})
         try:
             if not feasible(ev, p, [('attr', SELF, key_attr)], cls + '.size()'):
                 continue
             results.add(ev.ev(v))
+        except LookupFailed:
+            results.add(None)
         except Undecided as e:
-            if 'lookup' in str(e):
-                results.add(None)
-            else:
-                raise AnalysisError('{}.size() for {!r}: {}'.format(cls, kw, e))
-        finally:
-            domains.extend(ev.table_domains)
+            raise AnalysisError('{}.size() for {!r}: {}'.format(cls, kw, e))
     if len(results) != 1:
         raise AnalysisError('{}.size() for {!r}: paths disagree ({})'.format(cls, kw, results))
     r = next(iter(results))
@@ -222,8 +222,7 @@ def check_integer_directives(rep, model, doc_text):
         if not sites:
             raise AnalysisError('no site was found where a {} item is packed'.format(cls))
         documented = docs.keyword_table(doc_text, 'Keyword', doc_heading)
-        domains = []
-        sizes = {kw: size_of(model, cls, key_attr, len_attr, kw, domains) for kw in sorted(set(want) | set(documented))}
+        sizes = {kw: size_of(model, cls, key_attr, len_attr, kw) for kw in sorted(set(want) | set(documented))}
         # the value that is packed is the user's value, untouched
         live_sites = []
         for f, p, x, fmt, val, node in sites:
@@ -244,27 +243,25 @@ def check_integer_directives(rep, model, doc_text):
             keysym = ('attr', x, key_attr)
             for kw in sorted(keywords):
                 w = want.get(kw)
-                base = SymEval(facts, {keysym: kw})
+                base = SymEval(facts, {keysym: kw}, {x: cls})
                 try:
                     bps = breakpoints([fmt] + [t for t, _, _ in p.conds], val, base)
                 except Undecided as e:
                     raise AnalysisError('{}: {}'.format(f, e))
                 samples = sorted({-1, 0, 1} | {c + d for c in bps for d in (-1, 0, 1)})
                 for v in samples:
-                    ev = SymEval(facts, {keysym: kw, val: v})
+                    ev = SymEval(facts, {keysym: kw, val: v}, {x: cls})
                     if not feasible(ev, p, [val, keysym], f):
                         continue
                     neg = v < 0
                     inst = '{} {} [{}]'.format(f, kw, 'negative' if neg else 'non-negative')
                     try:
                         got = ev.ev(fmt)
+                    except LookupFailed as e:
+                        rep.fail(Finding('R10.1.width', f, node, '`{}` is documented but has no struct format ({})'.format(kw, e), line=getattr(node, 'lineno', None)), instance=inst)
+                        continue
                     except Undecided as e:
-                        domains.extend(ev.table_domains)
-                        if 'lookup' in str(e):
-                            rep.fail(Finding('R10.1.width', f, node, '`{}` is documented but has no struct format ({})'.format(kw, e), line=getattr(node, 'lineno', None)), instance=inst)
-                            continue
                         raise AnalysisError('{}: the struct format for `{}` cannot be evaluated: {}'.format(f, kw, e))
-                    domains.extend(ev.table_domains)
                     cover.add((cls, kw, neg))
                     loc = dict(line=getattr(node, 'lineno', None))
                     if not (isinstance(got, str) and len(got) == 2 and got[1] in INT_LETTERS):
@@ -280,10 +277,6 @@ def check_integer_directives(rep, model, doc_text):
                     rep.check(got[1].islower() == neg, 'R10.2.sign', inst + ': format ' + got,
                               lambda kw=kw, got=got, neg=neg, v=v: Finding('R10.2.sign', f, node, '`{}` packs the {} value {} with format {!r}: the {} code of that width is required'.format(
                                   kw, 'negative' if neg else 'non-negative', v, got, 'signed' if neg else 'unsigned'), **loc))
-        # keywords the code tables know but neither the documentation nor the reference does
-        extra = {k for d in domains for k in d if isinstance(k, str)} - keywords
-        for kw in sorted(extra):
-            rep.fail(Finding('R10.1.width', cls, model.method(cls, 'size'), '`{}` has a width in the code but is not a documented {} keyword'.format(kw, doc_heading)), instance=cls + ' ' + kw)
         rep.count('width table rows', len(want))
         if not rep.findings:
             for kw in sorted(want):
@@ -296,6 +289,7 @@ def check_integer_directives(rep, model, doc_text):
 # -- R10.4 strings -----------------------------------------------------------------------------------------------------------------
 def check_strings(rep, model):
     facts = model.facts
+    CC.RESOLVE[0] = SymEval(facts, {}, {SELF: 'String'}).ev          # codec names held in module-level / class-level constants
     # what String.size() measures
     msize = model.method('String', 'size')
     size_ops, text_attr = None, None
@@ -321,6 +315,7 @@ def check_strings(rep, model):
         if not data:
             continue
         n_emit += 1
+        CC.RESOLVE[0] = SymEval(facts, {}, {SELF: 'String', x: 'String'}).ev
         base, ops = CC.split_chain(strip_res(data[0]))
         if base != ('attr', x, text_attr):
             raise AnalysisError('{}: string data {} is not a codec chain over the item\'s text'.format(fname, show(data[0])[:100]))
@@ -350,9 +345,9 @@ def check_strings(rep, model):
         for t in find_all(v, lambda t: t[0] in ('list', 'tuple') and len(t[1]) == 2 and t[1][0] == C('string')):
             sites += 1
             base, ops = CC.split_chain(strip_res(t[1][1]))
-            other = find_all(base, lambda u: u[0] in ('mcall', 'call') and (u[2] if u[0] == 'mcall' else u[1]) not in ('group', 'match', 'fullmatch', 're.compile', 're.match', 're.fullmatch'))
-            if other or not ops:
-                raise AnalysisError('lex_tokens: the text of a string token is {}: not a codec chain over the matched source text'.format(show(t[1][1])[:120]))
+            hidden = find_all(base, lambda u: (u[0] == 'mcall' and u[2] in ('encode', 'decode')) or (u[0] == 'call' and u[1] in ('bytes', 'codecs.encode', 'codecs.decode')))
+            if hidden or not ops:
+                raise AnalysisError('lex_tokens: the text of a string token is {}: not a codec chain applied to the selected source text'.format(show(t[1][1])[:120]))
             if CC.well_typed(ops, 'str') != 'str':
                 raise AnalysisError('lex_tokens: {} does not turn text into text'.format(CC.describe(ops)))
             bad = CC.check_chain(ops, CC.CLASSES, lambda s: s[1])
@@ -385,10 +380,13 @@ def check_include_bytes(rep, model):
     if 'assemble' not in cg.funcs:
         raise AnalysisError('anchor vanished: assemble')
     reach = sorted(pv.reach('assemble'))
-    users = set(model.users('IncludeBytes'))
+    # the functions that handle IncludeBytes items and everything they call
+    handlers = set()
+    for u in model.users('IncludeBytes'):
+        handlers |= pv.reach(u)
     n = 0
     for q, node, name, arg in pv.sinks(reach):
-        if q.split('.')[0] in users or name == 'os.path.getsize':
+        if q in handlers or name == 'os.path.getsize':
             n += 1
             ks = set(pv.kinds(arg, q)) - {'NoneK'}
             if ks and not ks & {'RawToken', 'Literal', 'UserGiven', 'Dir', 'AdjDir', 'CwdDir'} and ks != {'Resolved'}:
@@ -427,16 +425,21 @@ def check_include_bytes(rep, model):
         onode = next((e[2] for e in p.events if e[0] == 'with' and strip_res(e[1]) == o), node)
         rep.check(is_const(mode) and isinstance(mode[1], str) and 'b' in mode[1] and 'r' in mode[1] and '+' not in mode[1], 'R10.5.binary', '{}: include_bytes reads in binary mode'.format(fname),
                   lambda mode=mode, node=onode, fname=fname: Finding('R10.5.binary', fname, node, 'the file is opened with mode {}: content is decoded / newline-translated'.format(show(mode)), line=getattr(node, 'lineno', None)))
-        want = {('call', 'len', (data,), ()), ('attr', x, size_attr)}
-        guarded = False
-        for ev in p.events:
-            if ev[0] == 'assert':
-                t = ev[1]
-                if t[0] == 'cmp' and t[1] == '==' and {strip_res(t[2]), strip_res(t[3])} == want:
+        length, size = ('call', 'len', (data,), ()), ('attr', x, size_attr)
+        tests = [(ev[1], True) for ev in p.events if ev[0] == 'assert'] + [(t, pol) for t, pol, _ in p.conds]
+        guarded, unclear = False, None
+        for t, pol in tests:
+            if not (t[0] == 'cmp' and ((t[1] == '==' and pol) or (t[1] == '!=' and not pol))):
+                continue
+            sides = [strip_res(t[2]), strip_res(t[3])]
+            if length in sides:
+                other = sides[1 - sides.index(length)]
+                if other == size:
                     guarded = True
-        for t, pol, _ in p.conds:
-            if t[0] == 'cmp' and {strip_res(t[2]), strip_res(t[3])} == want and ((t[1] == '==' and pol) or (t[1] == '!=' and not pol)):
-                guarded = True
+                elif find_all(other, lambda u: u[0] in ('mcall', 'callv') or (u[0] == 'call' and u[1] not in ('len', 'int', 'abs', 'min', 'max'))):
+                    unclear = other
+        if not guarded and unclear is not None:
+            raise AnalysisError('{}: the content length is compared with {}, which is not understood'.format(fname, show(unclear)[:80]))
         rep.check(guarded, 'R10.5.size-check', '{}: content length is checked against the size the labels were computed from'.format(fname),
                   lambda fname=fname, node=node: Finding('R10.5.size-check', fname, node, 'the embedded content is not checked against the size used for layout ({}.{})'.format('IncludeBytes', size_attr),
                                                          line=getattr(node, 'lineno', None)))
